@@ -210,7 +210,7 @@ PROPS['C07'] = {
     ] + seg_harnesses([4, 5, 8], []) + [
         H('c07_rmi_decode_len1', 'decoder', 'quick', 900, 10, 'decode_rmi (real bitvec code) on every 1-character ASCII string: bit layout, foreign characters refused'),
         H('c07_rmi_decode_len2', 'decoder', 'quick', 1200, 12, 'decode_rmi on every 2-character ASCII string'),
-    ] + line_harnesses([], [2, 3]),
+    ] + line_harnesses([1], [2, 3]),
     'assumptions': ['struct-literal maps, tokens assumed sorted (C04)'] + SEG_ASSUME,
     'trusted': [],
     'outside': [],
